@@ -217,6 +217,47 @@ class WireTransport(J.Transport):
         return conn
 
 
+class _DispatchingConnection(RecordingConnection):
+    """Answers each request with what a dispatcher replies to the body that was actually sent"""
+
+    def __init__(self, host, owner):
+        RecordingConnection.__init__(self, host, b"")
+        self.owner = owner
+        self._mark = 0
+
+    def getresponse(self):
+        raw = bytes(self.sent[self._mark:])
+        self._mark = len(self.sent)
+        _line, _headers, body = split_request(raw)
+        text = body.decode("utf-8")
+        reply = self.owner.dispatcher._marshaled_dispatch(text, self.owner.dispatch_method)
+        self.owner.exchanged.append((text, reply))
+        self.reply_bytes = wire_reply((reply or "").encode("utf-8"), self.owner.framing, self.owner.sizes)
+        return RecordingConnection.getresponse(self)
+
+
+class WireDispatcherTransport(J.Transport):
+    """Like DispatcherTransport, but through the library's real Transport code in both directions: the request is
+    written by send_request/send_content, the dispatcher's reply comes back framed as HTTP (Content-Length, chunked,
+    HTTP/1.0, gzip) and is read by parse_response in its own block size"""
+
+    def __init__(self, config, dispatcher, dispatch_method=None, framing="length", sizes=()):
+        J.Transport.__init__(self, config)
+        self.dispatcher = dispatcher
+        self.dispatch_method = dispatch_method
+        self.framing = framing
+        self.sizes = tuple(sizes)
+        self.exchanged = []
+
+    def make_connection(self, host):
+        if self._connection and host == self._connection[0]:
+            return self._connection[1]
+        chost, self._extra_headers, _ = self.get_host_info(host)
+        conn = _DispatchingConnection(chost, self)
+        self._connection = host, conn
+        return conn
+
+
 # ---------------------------------------------------------------------------
 # Chunked delivery of replies to the client and of requests to the handler
 
